@@ -203,5 +203,5 @@ MANIFEST = {
              "plus the direct oracle (refused => 400/401/403 and storage digest unchanged)"),
     "design_ref": "DESIGN.md §4 C11",
     "note": "partial: unforgeability of ed25519 and TLS are outside the model; compare_files signs the path although it carries a body (see DESIGN §9.4)",
-    "technique": "Coq proof (decision-procedure soundness, refusal leaves state unchanged) + extracted-model correspondence against the live server",
+    "technique": "Coq proof (decision-procedure soundness, refusal leaves state unchanged, trusted set = replay of the device log: a key whose last device event is not a Trust is refused) + extracted-model correspondence against the live server + websocket probes held open across the case",
 }
